@@ -1885,6 +1885,45 @@ def c17_stop_function_called_before_the_background_thread_runs_the_loop():
     return out
 
 
+def c17_closed_target_raises_whatever_the_awaitable_is():
+    """C17: a closed target raises RuntimeError -- also for a future or task that is already settled."""
+    import aiuti.asyncio as A
+
+    async def sc():
+        loop = aio.get_running_loop()
+        closed = aio.new_event_loop()
+        closed.close()
+        out = []
+
+        async def value():
+            return 'task value'
+        settled = loop.create_future()
+        settled.set_result('stale value')
+        failed = loop.create_future()
+        failed.set_exception(ValueError('stale failure'))
+        task = aio.ensure_future(value())
+        await task
+        pending_coro = value()
+        for name, aw in (('a settled future', settled), ('a failed future', failed), ('a finished task', task),
+                         ('a coroutine', pending_coro)):
+            try:
+                r = await A.ensure_aw(aw, closed)
+                got = 'returned %r' % (r,)
+            except RuntimeError:
+                got = None
+            except BaseException as e:  # noqa
+                got = 'raised %r' % (e,)
+            if got is not None:
+                out.append('C17: ensure_aw(%s, <closed loop>) %s, expected RuntimeError' % (name, got))
+        try:
+            failed.exception()
+            pending_coro.close()
+        except BaseException:  # noqa
+            pass
+        return out
+    return _run(sc, loop=aio.new_event_loop())
+
+
 def c20_every_kind_of_awaitable_and_failure():
     """C20: gather_excs / raise_first_exc over coroutines, spawned Tasks, plain Futures (failed through
     set_exception with an exception that was never raised) and objects with __await__."""
@@ -2074,7 +2113,8 @@ SCENARIOS = {
             c10_failed_batch_does_not_widen_the_concurrency_limit],
     'C16': [c16_producer_far_ahead_of_the_consumer, c16_debug_mode_and_reused_loop],
     'C17': [c17_every_kind_of_awaitable_crosses_loops, c17_idle_target_does_not_depend_on_the_default_executor,
-            c17_stop_function_called_before_the_background_thread_runs_the_loop],
+            c17_stop_function_called_before_the_background_thread_runs_the_loop,
+            c17_closed_target_raises_whatever_the_awaitable_is],
     'C20': [c20_every_kind_of_awaitable_and_failure],
     'C07': [c07_shutdown_while_a_flush_is_requested, c03_function_failing_with_its_own_cancelled_error,
             c07_cancelled_while_the_function_runs_and_reports_it_differently,
